@@ -138,7 +138,7 @@ def clamp_constants(F, setter):
     m = F.method(DIFF, setter, inherent_only=True)
     if m is None:
         return None, None
-    rv = prov.prov_of(m).return_value()
+    rv = inline_locals(F, prov.prov_of(m).return_value())
     for n in prov.walk(rv):
         if n[0] == 'call' and n[1].get('name') == 'clamp' and len(n[2]) == 3:
             src = as_param_path(n[2][0])
@@ -148,6 +148,39 @@ def clamp_constants(F, setter):
                 except (TypeError, ValueError):
                     return m, None
     return m, None
+
+
+def inline_locals(F, v, depth=2):
+    """replace calls of local non-setter helper functions by their return value (parameters substituted)"""
+    if depth <= 0:
+        return v
+    k = v[0]
+    if k == 'call':
+        args = [inline_locals(F, a, depth) for a in v[2]]
+        node = ('call', v[1], args, v[3])
+        f = v[1]
+        if f.get('local') and not f.get('impl_adt') and F.fn(f.get('path') or '') is not None:
+            inl = prov.inline_call(F, node)
+            if inl is not node:
+                return inline_locals(F, inl, depth - 1)
+        return node
+    if k == 'agg':
+        return ('agg', v[1], v[2], v[3], {f: inline_locals(F, x, depth) for f, x in v[4].items()})
+    if k == 'update':
+        return ('update', inline_locals(F, v[1], depth), {p: inline_locals(F, x, depth) for p, x in v[2].items()})
+    if k == 'phi':
+        return prov.phi([inline_locals(F, x, depth) for x in v[1]])
+    if k == 'mut':
+        return ('mut', inline_locals(F, v[1], depth), v[2], v[3] if len(v) > 3 else ())
+    return v
+
+
+def clamps_in(v):
+    out = []
+    for n in prov.walk(v, limit=600):
+        if n[0] == 'call' and n[1].get('name') == 'clamp' and len(n[2]) == 3:
+            out.append((prov.const_val(n[2][1]), prov.const_val(n[2][2])))
+    return sorted(set(out))
 
 
 def r3(ctx, F):
@@ -232,8 +265,38 @@ def r4_r5(ctx, F):
                         break
                 srcs.append(s)
             called[f['name']] = srcs
+    # literal style: `Difficulty { slot: self.S, .. }` is equivalent to replaying the setter iff the slot receives what the setter
+    # would store: same source field and the same clamp (constants) the setter applies
+    import combin
+    lit = None
+    rvi = inline_locals(F, combin.expand(F, prov.prov_of(into).return_value()))
+    for x in prov.walk(rvi, limit=400):
+        if x[0] == 'agg' and x[2] == DIFF:
+            lit = x
+            break
     for pub in ifields:
         srcs = called.get(pub)
+        if srcs is None and lit is not None:
+            slot = expose.get(pub)
+            w = lit[4].get(slot) if slot else None
+            setter = F.method(DIFF, pub, inherent_only=True)
+            sv = None
+            if setter is not None:
+                d_ = delta_fields(inline_locals(F, prov.prov_of(setter).return_value()), 1)
+                sv = list(d_.values())[0] if d_ and len(d_) == 1 else None
+            reads = set()
+            for nn in prov.walk(w, limit=300) if w is not None else []:
+                pp = as_param_path(nn)
+                if pp is not None and pp[0] == 1 and pp[1]:
+                    reads.add(pp[1][0])
+            same_src = reads == {pub}
+            want = clamps_in(sv) if sv is not None else []
+            got = clamps_in(w) if w is not None else []
+            ctx.require(w is not None and same_src and want == got, 'C18-R4', 'into:' + pub,
+                        'into_difficulty fills the slot of `%s` directly from self.%s with the setter\'s clamp %s' % (pub, pub, want or '(none)'), into.where(),
+                        bad='InspectDifficulty::into_difficulty fills `%s` from %s with clamp %s, but Difficulty::%s stores its argument with clamp %s: a value set through the '
+                            'inspectable form means something else than the same value given to the setter' % (pub, sorted(reads), got or '(none)', pub, want or '(none)'))
+            continue
         ctx.require(srcs is not None and all(s == pub for s in srcs) and len(srcs) >= 1, 'C18-R4', 'into:' + pub,
                     'into_difficulty applies Difficulty::%s(self.%s…)' % (pub, pub), into.where(),
                     bad='InspectDifficulty::into_difficulty %s' % ('never calls Difficulty::%s: the setting is lost in the round trip' % pub
